@@ -25,6 +25,8 @@ inductive Start where
   deriving DecidableEq, Repr
 
 structure Reads where
+  x       : Bool                            -- the public fields Extension and (while X) ExtensionProfile
+  profile : UInt16
   ids  : List UInt8                         -- GetExtensionIDs()
   gets : List (UInt8 × Option Bytes)        -- GetExtension(id) for every listed id, then the op's id
   deriving DecidableEq, Repr
@@ -58,7 +60,8 @@ def startHeader : Start → Option Header
 
 def modelReads (h : Header) (extra : List UInt8) : Reads :=
   let ids := getExtensionIDs h
-  { ids := ids, gets := (ids ++ extra).map fun id => (id, getExtension h id) }
+  { x := h.extension, profile := (C01.canonH h).extProfile,
+    ids := ids, gets := (ids ++ extra).map fun id => (id, getExtension h id) }
 
 def modelStep (h : Header) : Op → Option Err × Header
   | .set id v => setExtension h id v
@@ -90,7 +93,7 @@ def modelFinal (h : Header) : FinalObs :=
       | _ => [] }
 
 def emptyObs : Obs :=
-  { startOk := false, start := [], init := { ids := [], gets := [] }, steps := [],
+  { startOk := false, start := [], init := { x := false, profile := 0, ids := [], gets := [] }, steps := [],
     final := { extension := false, profile := 0, marshal := .err .other, un := .err .other, wireGets := [] } }
 
 def modelObs (s : Start) (ops : List Op) : Obs :=
@@ -112,15 +115,20 @@ def readsOk (m : Map) (extra : List UInt8) (r : Reads) : Bool :=
   r.gets == (OM.keys m ++ extra).map fun k => (k, OM.get m k)
 
 /-- fold the history: an operation that returned nil is applied to the map, one that returned an
-    error is not; after every operation the reads must show the map; no panic.
+    error is not and must leave the public fields (X flag, profile: `prev`) as they were; after
+    every operation the reads must show the map; no panic.
     Returns the final map when everything agreed. -/
-def foldOk (m : Map) : List Op → List StepObs → Option Map
+def foldOk (m : Map) (prev : Bool × UInt16) : List Op → List StepObs → Option Map
   | [], [] => some m
   | op :: ops, s :: ss =>
     match s.res with
     | .panic => none
-    | .ok _ => let m' := OM.apply m op; if readsOk m' [op.id] s.reads then foldOk m' ops ss else none
-    | .err _ => if readsOk m [op.id] s.reads then foldOk m ops ss else none
+    | .ok _ =>
+      let m' := OM.apply m op
+      if readsOk m' [op.id] s.reads then foldOk m' (s.reads.x, s.reads.profile) ops ss else none
+    | .err _ =>
+      if readsOk m [op.id] s.reads && s.reads.x == prev.1 && s.reads.profile == prev.2
+      then foldOk m prev ops ss else none
   | _, _ => none
 
 def isLegacy (profile : UInt16) : Bool := !(profile == profileOneByte || profile == profileTwoByte)
@@ -139,7 +147,7 @@ def finalOk (m : Map) (f : FinalObs) : Bool :=
 def holds (ops : List Op) (o : Obs) : Bool :=
   !o.startOk ||
   (readsOk o.start [] o.init &&
-    match foldOk o.start ops o.steps with
+    match foldOk o.start (o.init.x, o.init.profile) ops o.steps with
     | none => false
     | some m => finalOk m o.final)
 
